@@ -382,7 +382,7 @@ def diff_results(rW, rR):
 
 
 def classify(aspects, rW, rR, newdirs, reports_w=(), reports_r=(), exists=lambda p: False,
-             old_edits=frozenset(), recent_edits=frozenset()) -> str:
+             old_edits=frozenset(), recent_edits=frozenset(), created=frozenset(), ever_watched=frozenset()) -> str:
     if rW.status != "done" and rR.status == "done":
         err = rW.error or ""
         if "Unexpected file hash update" in err:
@@ -398,9 +398,10 @@ def classify(aspects, rW, rR, newdirs, reports_w=(), reports_r=(), exists=lambda
         for d in newdirs:
             if p.rstrip("/") == d or p.startswith(d + "/"):
                 return "watch-new-directory-unreported"
-    if any(p in recent_edits and os.path.dirname(p) not in newdirs for p in upd_r - upd_w):
-        # a file written in this round into a directory that existed before, and no item for it:
-        # the directory is not watched (it held no match when the pattern was registered)
+    if any(p in created and os.path.dirname(p) not in newdirs and os.path.dirname(p) not in ever_watched
+           for p in upd_r - upd_w):
+        # a file CREATED in this round in a directory that existed before and that the director never
+        # watched (it held no match when the pattern was registered), and no item for it
         return "watch-unwatched-directory-unreported"
     del_r = {d.split(" ")[0] for t, d in list(reports_r) + rR.tags("DELETED") if t == "DELETED"}
     del_w = {d.split(" ")[0] for t, d in list(reports_w) + rW.tags("DELETED") if t == "DELETED"}
@@ -478,6 +479,7 @@ def run_pair(ctx, project, kw, rounds_fn, seed, where, applied_log=None):
             # not about this property
             ctx.stats.count("pairs-first-phase-differs")
             return
+        ever_watched = set(rW.watched_dirs)
         nround = 0
         settle = 0
         pending_compare = False
@@ -493,9 +495,12 @@ def run_pair(ctx, project, kw, rounds_fn, seed, where, applied_log=None):
                 nxt = (["settle"], [], [])
             label, edits, external = nxt
             before = set(simR.dirs())
+            files_before = set(simR.files())
             simR.apply(edits)
             newdirs = sorted(set(simR.dirs()) - before)
+            created_now = sorted({e[1] for e in edits if e[0] == "write" and e[1] not in files_before})
             history.append({"round": nround, "kinds": label, "edits": plain(edits), "new_directories": newdirs,
+                            "created": created_now,
                             "external": [(k, plain(e)) for k, e in external]})
             if applied_log is not None:
                 applied_log.begin()
@@ -527,10 +532,13 @@ def run_pair(ctx, project, kw, rounds_fn, seed, where, applied_log=None):
             pending_compare = False
             ctx.stats.count("rounds-compared")
             aspects, detail = diff_results(rW, rR)
+            watched_now = set(rW.watched_dirs)
             if aspects:
                 sig = classify(aspects, rW, rR, newdirs_all(history[since:], newdirs), reports_w, reports_r,
                                lambda p: os.path.isdir(os.path.join(simR.root, p)),
-                               edited_paths(history[:since]), edited_paths(history[since:]))
+                               edited_paths(history[:since]), edited_paths(history[since:]),
+                               frozenset(p for h in history[since:] for p in h.get("created", [])),
+                               frozenset(ever_watched))
                 what = (f"after edits {label}: watch rebuild and restart differ in {'+'.join(aspects)} "
                         f"(watch: {rW.status} {rW.returncode!r} ran {rW.commands}; restart: {rR.status} "
                         f"{rR.returncode!r} ran {rR.commands})")
@@ -542,6 +550,7 @@ def run_pair(ctx, project, kw, rounds_fn, seed, where, applied_log=None):
                 return
             reports_w, reports_r = [], []
             since = len(history)
+            ever_watched |= watched_now
             if rW.status != "done":
                 return
 
